@@ -17,8 +17,12 @@ RULE = ("per job: one gen_params / gen_seq / gen_coords call with a generated in
         "(unknown block, broken file) are run the same way. Oracle: directory snapshots (names, sizes, SHA-256) at the crash "
         "instant (= what process death would leave), after the failed call and after each later operation are unchanged except "
         "for outputs of operations that succeeded; after success the file is complete, the previous content is byte-identical at "
-        "the next free #name.i#, older backups untouched. evaluations = crash runs; non-trivial+distinct = distinct "
-        "(program, file:function) sites at which a crash actually fired")
+        "the next free #name.i#, older backups untouched. One gen_params job per batch (24 in thorough) has EVERY call boundary "
+        "crashed, split over 8 chunk jobs. Additional injected fault: the publishing os.rename out of the temp directory fails "
+        "with EXDEV (temp dir on another file system) - the published file must equal the fault-free one. An injected failure "
+        "that is swallowed (the call returns normally) counts as a success that must have published the complete file. Output "
+        "paths are absolute, relative or through a '..' detour; cwd varies. evaluations = crash runs; non-trivial+distinct = "
+        "distinct (program, file:function) sites at which a crash actually fired")
 ASSUMPTIONS = ["an exception raised at a call boundary stands for any failure at that stage (bad input found late, MemoryError, "
                "KeyboardInterrupt, ENOSPC); byte-level torn writes of the final rename are not modelled (vermouth publishes by rename)",
                "temp files are not output files: they may exist under the run's private TMPDIR"]
@@ -291,7 +295,8 @@ def run_job(job):
     digest = h.hexdigest()[:24]
     return {"status": "violation" if viols else "ok", "violations": viols[:6], "digest": digest, "events": cal["calls"],
             "signature": f"{job['prog']}:{n}", "nt_keys": sorted(nt), "nontrivial": True, "evals": evals,
-            "faults": {"crash_injected": fired}, "probes": probes,
+            "faults": {"crash_injected": fired, "exdev_on_publish": probes.get("publish_across_filesystems", 0),
+                       "natural_failure": probes.get("natural_failure", 0)}, "probes": probes,
             "sample": {"prog": job["prog"], "calls_before_publish": n, "crash_points": len(ks),
                        "every_call_boundary": exhaustive, "existing_state": job["state"],
                        "first_sites": [f"{f}:{fn}" for _, f, fn in sites[:12]]}}
